@@ -104,7 +104,7 @@ struct Input {
 
 pub fn run(p: &Params) -> Report {
     let mut rep = Report::new("C04");
-    rep.rule = "cases = (state, spending transaction) in which everything except authorisation is valid by construction (coins exist, balanced, fee paid, unlocked, well-formed): 1-8 inputs drawn from covenant families ed25519 legacy/new (right/wrong key, right/wrong slot, signature over another transaction, fields tampered after signing, truncated), hash-lock on data, time-lock and deadline on the previous header's height, spender-index-, value-, additional-data-, parent-height-, parent-index-, output-count-bound, self-hash and random programs; inputs may share one covenant hash while differing in environment, down to twin coins that differ only in coin id and input position; covenants may be missing, corrupted after signing, or the coin may be locked to the hash of bytes that are not a program at all (a literal running past the end of a standard covenant or standing alone, an unassigned opcode, a missing operand). The spending transaction is a plain payment, a faucet-kind transaction with inputs (off mainnet) or a pool-kind transaction whose data names no pool; input values include 0. Oracle: the reference interpreter on the reference environment heap for every input: accepted => every input authorised; for the two standard signature covenants also all authorised => accepted. Non-trivial = >= 2 inputs, or an environment-dependent covenant, or a tampered transaction; distinct by transaction hash".into();
+    rep.rule = "cases = (state, spending transaction) in which everything except authorisation is valid by construction (coins exist, balanced, fee paid, unlocked, well-formed): 1-8 inputs drawn from covenant families ed25519 legacy/new (right/wrong key, right/wrong slot, signature over another transaction, fields tampered after signing, truncated), hash-lock on data, time-lock and deadline on the previous header's height, spender-index-, value-, additional-data-, parent-height-, parent-index-, output-count-bound, self-hash and random programs; inputs may share one covenant hash while differing in environment, down to twin coins that differ only in coin id and input position; covenants may be missing, corrupted after signing, or the coin may be locked to the hash of bytes that are not a program at all (a literal running past the end of a standard covenant or standing alone, an unassigned opcode, a missing operand). The spending transaction is a plain payment, a faucet-kind transaction with inputs (off mainnet) or a pool-kind transaction whose data names no pool; input values include 0. One spend in four is applied as a member of a two-transaction batch whose other (valid) member lists every covenant the spend's inputs need, half of those with one covenant dropped from the spend itself. Oracle: the reference interpreter on the reference environment heap for every input: accepted => every input authorised; for the two standard signature covenants also all authorised => accepted. Non-trivial = >= 2 inputs, or an environment-dependent covenant, or a tampered transaction; distinct by transaction hash".into();
     let total = p.n(100_000, 2_500_000);
     let mine = p.share(total);
     let mut rng = Rng::new(p.shard_seed() ^ 0xC04);
@@ -226,6 +226,11 @@ pub fn run(p: &Params) -> Report {
         for i in &inputs {
             fab.coins.push((i.id, i.cdh.clone()));
         }
+        // a coin for a neighbour transaction (used when the spend is applied as a member of a batch)
+        let with_neighbour = r.chance(1, 4);
+        let nb_id = CoinID { txhash: TxHash(HashVal(r.arr32())), index: 0 };
+        let nb_cdh = CoinDataHeight { coin_data: CoinData { covhash: addr_of(&always_true_cov()), value: CoinValue(1 << 60), denom: Denom::Mel, additional_data: Bytes::new() }, height: BlockHeight(height - 1) };
+        fab.coins.push((nb_id, nb_cdh.clone()));
         let db = new_db();
         let sealed = fab.build(&db);
         let last_header = sealed.header();
@@ -290,7 +295,7 @@ pub fn run(p: &Params) -> Report {
         }
         // sign
         let msg = tx.hash_nosigs();
-        let tamper = r.below(12);
+        let tamper = if with_neighbour && r.chance(1, 2) { 6 } else { r.below(12) };
         let mut sigs: Vec<Vec<u8>> = vec![vec![]; n_slots];
         for (idx, i) in inputs.iter().enumerate() {
             match &i.fam {
@@ -394,7 +399,52 @@ pub fn run(p: &Params) -> Report {
         // balance must still hold for the test to isolate authorisation: recheck cheaply
         let mut st2 = st.clone();
         let txc = tx.clone();
-        let res = guarded(move || st2.apply_tx(&txc));
+        // a transaction is authorised by the covenants IT carries: as a member of a batch, next to a (valid) neighbour
+        // that lists every covenant this transaction's inputs need - including the ones it dropped - the verdict
+        // must be the same
+        let neighbour = if with_neighbour {
+            let mut nb = Transaction {
+                kind: TxKind::Normal,
+                inputs: vec![nb_id],
+                outputs: vec![CoinData { covhash: dest, value: CoinValue(0), denom: Denom::Mel, additional_data: Bytes::new() }],
+                fee: CoinValue(0),
+                covenants: std::iter::once(Bytes::from(always_true_cov())).chain(covs.iter().map(|c| Bytes::from(c.clone()))).collect(),
+                data: Bytes::new(),
+                sigs: vec![],
+            };
+            for _ in 0..5 {
+                let min = crate::model::big_to_u128_sat(&crate::model::ref_min_fee(&nb, mult));
+                nb.fee = CoinValue(min);
+                nb.outputs[0].value = CoinValue((1u128 << 60).saturating_sub(min));
+            }
+            Some(nb)
+        } else {
+            None
+        };
+        // the neighbour alone must be fine (otherwise the batch says nothing about the spend)
+        if let Some(nb) = &neighbour {
+            let mut probe = st.clone();
+            let nbc = nb.clone();
+            if !matches!(guarded(move || probe.apply_tx(&nbc)), Ok(Ok(()))) {
+                rep.count("neighbour transaction refused on its own (case skipped)");
+                continue;
+            }
+        }
+        let nb_first = r.chance(1, 2);
+        let site = if neighbour.is_some() { "apply_tx_batch" } else { "apply_tx" };
+        let res = guarded(move || match neighbour {
+            None => st2.apply_tx(&txc),
+            Some(nb) => {
+                let batch = if nb_first { vec![nb, txc] } else { vec![txc, nb] };
+                st2.apply_tx_batch(&batch)
+            }
+        });
+        if with_neighbour {
+            rep.count("spends applied in a batch next to a neighbour that lists their covenants");
+            if tamper == 6 {
+                rep.count("spends missing a covenant that a batch neighbour lists");
+            }
+        }
         rep.eval();
         let env_dep = inputs.iter().any(|i| !matches!(i.fam, Fam::AlwaysTrue | Fam::SigLegacy(_) | Fam::HashLock(_)));
         if n_in >= 2 || env_dep || tampered {
@@ -404,7 +454,7 @@ pub fn run(p: &Params) -> Report {
             let mut seen = std::collections::HashSet::new();
             inputs.iter().any(|i| !seen.insert(i.cdh.coin_data.covhash))
         };
-        let wit = json!({"case_seed": case_seed, "kind": format!("{}", kind), "net": format!("{:?}", net), "height": height + 1, "tx_hex": tx_hex(&tx), "tx": tx_brief(&tx), "tamper": tamper,
+        let wit = json!({"case_seed": case_seed, "kind": format!("{}", kind), "net": format!("{:?}", net), "height": height + 1, "tx_hex": tx_hex(&tx), "tx": tx_brief(&tx), "tamper": tamper, "applied_through": site, "neighbour_first": nb_first,
             "inputs": tx.inputs.iter().enumerate().map(|(idx, id)| { let i = by_id[id]; json!({"index": idx, "family": fam_name(&i.fam), "covenant": refvm::decode(&cov_of(&i.fam, &keys)).map(|o| ops_brief(&o)), "value": i.cdh.coin_data.value.0.to_string(), "additional_data": hex::encode(&i.cdh.coin_data.additional_data), "coin_height": i.cdh.height.0, "reference_authorised": ref_authorised(&tx, idx, id, &i.cdh, &last_header)}) }).collect::<Vec<_>>(),
             "result": format!("{:?}", res.as_ref().map_err(|e| e.message.clone()))});
         match res {
@@ -416,7 +466,8 @@ pub fn run(p: &Params) -> Report {
                     let earlier_same = tx.inputs[..idx].iter().any(|id| by_id[id].cdh.coin_data.covhash == by_id[&tx.inputs[idx]].cdh.coin_data.covhash);
                     let cls = if earlier_same { "shares-covenant-hash-with-an-earlier-input" } else if tampered { "tampered-transaction" } else { "first-use-of-covenant" };
                     let cls = if kind == TxKind::Normal { cls.to_string() } else { format!("{},spender-kind={}", cls, kind) };
-                    rep.violate(&format!("C04|unauthorised-spend-accepted|apply_tx|{},{}", fam, cls), format!("input {} ({}) is not authorised by its covenant in its own environment, yet the transaction was accepted", idx, fam), wit);
+                    let cls = if with_neighbour { format!("{},batch-neighbour-lists-the-covenants", cls) } else { cls };
+                    rep.violate(&format!("C04|unauthorised-spend-accepted|{}|{},{}", site, fam, cls), format!("input {} ({}) is not authorised by its covenant in its own environment, yet the transaction was accepted", idx, fam), wit);
                 } else if shared {
                     rep.count("accepted with inputs sharing a covenant hash (all authorised)");
                 }
@@ -445,6 +496,7 @@ pub fn run(p: &Params) -> Report {
         rep.require("accepted", p.n(2000, 40000));
         rep.require("rejected", p.n(2000, 40000));
         rep.require("accepted with inputs sharing a covenant hash (all authorised)", p.n(100, 2000));
+        rep.require("spends missing a covenant that a batch neighbour lists", p.n(500, 10000));
     }
     rep
 }
